@@ -10,6 +10,7 @@ import PV.Model.RegAlloc
 import PV.Model.RaInsert
 import PV.Model.Fold
 import PV.Model.Constexpr
+import PV.Model.Modules
 import PV.Gen.Tables
 import PV.DriverRun
 /-! One-JSON-object-in / one-JSON-object-out driver over the executable models. -/
@@ -136,6 +137,13 @@ def handleE (j : Json) : Except String Json := do
   | "forbidden" =>
     let src ← natsOf (← j.getObjVal? "src")
     pure (Json.mkObj [("ok", Json.bool (PV.Constexpr.hasForbidden (src.map Char.ofNat)))])
+  | "scopekey" =>
+    -- {"module": "m", "func": "f"|null} -> {"key":…, "name_const":…, "label": …}
+    let m ← j.getObjValAs? String "module"
+    let f := match j.getObjValAs? String "func" with | .ok x => some x.toList | .error _ => none
+    let key := PV.Modules.scopeKey m.toList f
+    pure (Json.mkObj [("ok", Json.mkObj [("key", Json.str (String.ofList key)), ("name_const", Json.str (String.ofList (PV.Modules.nameConst key))),
+      ("label", Json.str (String.ofList (PV.Modules.mangle key)))])])
   | "check-fall" => do pure (Json.mkObj [("ok", ← PV.DriverRun.checkFallCmd j)])
   | "run-regions" => do pure (Json.mkObj [("ok", ← PV.DriverRun.runRegions j)])
   | "check-alloc" => do pure (Json.mkObj [("ok", ← PV.DriverRun.checkAlloc j)])
